@@ -79,6 +79,17 @@ def scenario(desc):
             # the retention setting is edited between runs (still >= 2)
             r.cfg["max_retained_runs"] = maxr
             r.write_cfg()
+        if desc.get("listener"):
+            # a `log tail` listener is attached while the victim runs and dies, and stays for what follows
+            import subprocess
+            lis = subprocess.Popen([common.MONORAIL, "log", "tail", "--stdout", "--stderr"], cwd=r.dir, env=s.env(),
+                                   stdout=subprocess.DEVNULL, stderr=subprocess.DEVNULL, start_new_session=True)
+            s.popens.append(lis)
+            t_end = time.time() + 10
+            while not sc.port_listening(r.log_port):
+                if lis.poll() is not None or time.time() > t_end:
+                    raise common.EngineError("log tail did not start")
+                time.sleep(0.02)
         # ---- the victim
         c = ctlmod.Controller(s)
         realised = False
@@ -193,6 +204,14 @@ def scenarios(tier):
         out.append({"max": 2, "prefix": 2, "out_dir": "var/mr out", "crash": {"kind": "point", "name": name}})
     for st in KILL_STATES:
         out.append({"max": 2, "prefix": 2, "out_dir": "var/mr out", "crash": {"kind": "kill", "state": list(st)}})
+    # with a listener attached; and with the default-sized retention (10) around the wrap of the slot counter
+    for name in POINTS:
+        out.append({"max": 2, "prefix": 1, "listener": True, "crash": {"kind": "point", "name": name}})
+        for k in ((9, 10) if tier == "quick" else (9, 10, 11, 20)):
+            out.append({"max": 10, "prefix": k, "crash": {"kind": "point", "name": name}})
+    for st in KILL_STATES:
+        out.append({"max": 2, "prefix": 1, "listener": True, "crash": {"kind": "kill", "state": list(st)}})
+        out.append({"max": 10, "prefix": 10, "crash": {"kind": "kill", "state": list(st)}})
     # retention setting changed between runs: prefix made with a larger (or smaller) max_retained_runs
     for (pm, k, maxr) in ([(5, 4, 3), (5, 5, 2), (2, 2, 4)] if tier == "quick" else [(5, 4, 3), (5, 5, 2), (5, 3, 2), (2, 2, 4), (3, 3, 5), (6, 6, 3)]):
         for name in POINTS:
